@@ -102,6 +102,23 @@ def ast_tokens(ast, sp):
     return t
 
 
+def cmd_line(cmd, s, *args):
+    """`cmd <text s> args` - a long run of one character is sent run-length encoded (ExC15 `long`)"""
+    if len(s) > 300:
+        best, i = (0, 0, ""), 0
+        while i < len(s):
+            j = i
+            while j < len(s) and s[j] == s[i]:
+                j += 1
+            if j - i > best[0]:
+                best = (j - i, i, s[i])
+            i = j
+        n, i, c = best
+        if n > 100:
+            return " ".join(["long", str(n), str(ord(c)), cmd, fw.t_text(s[:i]), fw.t_text(s[i + n:])] + [str(a) for a in args])
+    return " ".join([cmd, fw.t_text(s)] + [str(a) for a in args])
+
+
 # ------------------------------------------------------------------ generators
 def gen_quad(rng):
     pick = lambda: rng.choice([0, 1, 9, 10, 99, 100, 199, 200, 249, 250, 255, rng.randrange(256), rng.randrange(256)])
@@ -224,8 +241,8 @@ def rejection_members(rng, ast, sp):
             out.append(("slot:" + cls, ast["host"] + (":" + str(ast["tcp"]) if ast["tcp"] is not None else "") + sp["slot_sep"] + bl))
     # invalid TCP port
     rest = s[len(ast["host"]) + (0 if ast["tcp"] is None else 1 + sp["tcp_zeros"] + len(str(ast["tcp"]))):]
-    for bp in rng.sample(["0", "00", "65535", "65536", "99999", "-1", "-0", "-80", "abc", "", "80a", "8 0", "1:2", ":", "0x50", "80.", "1e3", "4.5",
-                          "655350", "+", "_", "_80", "80_", "8__0", "- 80"], 6):
+    for bp in rng.sample(["0", "00", "65535", "65536", "99999", "-1", "-0", "-80", "abc", "", "80a", "1:2", ":", "0x50", "80.", "1e3", "4.5",
+                          "655350", "+", "_", "- 80", "8-0", "80-", "8;0"], 6):
         out.append(("bad_tcp_port", ast["host"] + ":" + bp + rest))
     return out
 
@@ -303,6 +320,7 @@ class Checker:
     def __init__(self, R, mp):
         self.R, self.mp = R, mp
         self.pending = []       # (string, auto, pl, origin, expect)
+        self.nfail = {}
 
     def add(self, s, auto, pl, origin, expect=None):
         """expect: None | ('accept', host, tcp, wire, small) | ('reject', cls) from the generator's own knowledge"""
@@ -315,8 +333,8 @@ class Checker:
         # links with two or more ':' can be IPv6 text: outside the model (see ASSUMPTIONS)
         lines = []
         for s, auto, pl, origin, expect in self.pending:
-            lines.append(f"outcome {fw.t_text(s)} {auto} {pl}")
-            lines.append(f"ref {fw.t_text(s)} {auto}")
+            lines.append(cmd_line("outcome", s, auto, pl))
+            lines.append(cmd_line("ref", s, auto))
         outs = self.mp.batch(lines)
         for k, (s, auto, pl, origin, expect) in enumerate(self.pending):
             m = canon_model_outcome(fw.parse_line(outs[2 * k]))
@@ -350,8 +368,17 @@ class Checker:
             self.oracle(case, i, v, ref, pl, expect)
         self.pending = []
 
+    def fail(self, what, case, observed, expected, cls):
+        """framework.Results keeps at most 200 failures: report a few per class so that one class
+        (e.g. a known finding) cannot crowd out another; all are counted in the histogram"""
+        self.R.count("oracle_failures_by_class", cls)
+        n = self.nfail.get(cls, 0)
+        self.nfail[cls] = n + 1
+        if n < 4:
+            self.R.fail(what, case, observed, expected, cls)
+
     def oracle(self, case, i, v, ref, pl, expect):
-        R = self.R
+        R = self
         if expect is not None and expect[0] == "accept":
             v = ("accept", expect[1], expect[2], {pl: expect[3]}, expect[4])
         elif expect is not None and expect[0] == "reject" and v[0] != "reject":
@@ -379,7 +406,7 @@ class Checker:
                             bad.append("tcp(int)")
                     except Exception:
                         bad.append("tcp(int)")
-                if ref["route"][0] == "ok" and ref["route"][1] and ref["route"][2] and i[3] != ref["route"][3 + pl]:
+                if ref["route"][0] == "ok" and ref["route"][2] and i[3] != ref["route"][3 + pl]:
                     bad.append("route")
                 if bad:
                     R.fail("an accepted string differs from its reference reading (silent corruption)", case, i, repr(ref), "silent:" + "+".join(bad))
@@ -439,7 +466,7 @@ def secondary(R, mp, strings, rng):
         except Exception as ex:
             e = ("err", exc_code(ex))
             route = None
-        lines.append(f"parse {fw.t_text(s)} {int(auto)}")
+        lines.append(cmd_line("parse", s, int(auto)))
         expect.append(("parse_connection_path (segments)", s, canon_segs, e))
         # Forward Open / Forward Close route, get_module_info route
         if route is not None:
@@ -455,9 +482,9 @@ def secondary(R, mp, strings, rng):
         else:
             e2 = e3 = ("err", e[1])
             slot = 0
-        lines.append(f"fopen {fw.t_text(s)} {int(auto)} {int(pl)}")
+        lines.append(cmd_line("fopen", s, int(auto), int(pl)))
         expect.append(("cip_path + MSG_ROUTER_PATH", s, canon_bytes, e2))
-        lines.append(f"modinfo {fw.t_text(s)} {int(auto)} {slot}")
+        lines.append(cmd_line("modinfo", s, int(auto), slot))
         expect.append(("get_module_info route", s, canon_bytes, e3))
         # the drivers' constructors
         d = rng.randrange(3)
@@ -473,19 +500,19 @@ def secondary(R, mp, strings, rng):
                 R.fail("driver shortcut flag differs from the documentation", [drivers[d].__name__], drivers[d]._auto_slot_cip_path, flags[d], "driver_flag")
         except Exception as ex:
             e4 = ("err", exc_code(ex))
-        lines.append(f"init {fw.t_text(s)} {d}")
+        lines.append(cmd_line("init", s, d))
         expect.append((f"{drivers[d].__name__}.__init__", s, canon_segs, e4))
         # parse_cip_route(str): the route part alone (only '\\' is normalised there)
         parts = s.replace("\\", "/").replace(",", "/").split("/", 1)
         if len(parts) == 2:
             rs = s[len(parts[0]) + 1:]
-            lines.append(f"route {fw.t_text(rs)} {int(auto)}")
+            lines.append(cmd_line("route", rs, int(auto)))
             expect.append(("parse_cip_route(str)", rs, canon_segs, impl_route(rs, auto)))
             try:
                 e5 = ("ok", bytes(PADDED_EPATH.encode(parse_cip_route(rs), length=True, pad_length=True)))
             except Exception as ex:
                 e5 = ("err", exc_code(ex))
-            lines.append(f"rstr {fw.t_text(rs)}")
+            lines.append(cmd_line("rstr", rs))
             expect.append(("generic_message(route_path=str)", rs, canon_bytes, e5))
     outs = mp.batch(lines)
     for (what, s, canon, e), o in zip(expect, outs):
@@ -572,7 +599,7 @@ def run(R, escalate=False):
             outsi = {impl_outcome(s, auto, 1)[1:] if impl_outcome(s, auto, 1)[0] == "ok" else ("err",) for s in ss}
             R.evaluations += 1
             if len(outsi) != 1:
-                R.fail("spellings of one route give different results", {"strings": ss, "auto_slot": bool(auto)}, [repr(x) for x in outsi], "one result", "spellings")
+                ck.fail("spellings of one route give different results", {"strings": ss, "auto_slot": bool(auto)}, [repr(x) for x in outsi], "one result", "spellings")
 
         # ---------------- rejection classes by construction
         for ast, sp, s in rng.sample(valid_strings, min(len(valid_strings), 600 if thorough else 150)):
@@ -610,13 +637,13 @@ def run(R, escalate=False):
 
         # ---------------- free malformed stream
         toks = ["bp", "backplane", "enet", "1", "2", "0", "255", "256", "15", "16", "10.0.0.1", "1.2.3.4", "", "x", ":", ":80", "80",
-                "65534", "65535", "+1", " ", "-1", "bp:1", "a.b", "1.2.3", "dhrio-a", "cnet", "0" * 4299 + "1", "0" * 4300 + "1", "1" * 4301,
-                "007", "0x1", "1_0", "\t1", "1\n", "::1"]
+                "65534", "65535", "+1", " ", "-1", "bp:1", "a.b", "1.2.3", "dhrio-a", "cnet", "007", "0x1", "1_0", "\t1", "1\n", "::1"]
+        long_toks = ["0" * 4299 + "1", "0" * 4300 + "1", "1" * 4301]
         for _ in range(4000 if thorough else 500):
             n = rng.randrange(0, 7)
-            s = rng.choice(["10.0.0.1", "h", "", "plc:80", "plc:0", "a:b:c", "h:" + "0" * 4296 + "8080", "h:" + "0" * 4297 + "8080"])
+            s = rng.choice(["10.0.0.1", "h", "", "plc:80", "plc:0", "a:b:c", "p:65534", "p:65535"])
             for _ in range(n):
-                s += rng.choice(SEPS) + rng.choice(toks)
+                s += rng.choice(SEPS) + (rng.choice(long_toks) if rng.random() < 0.01 else rng.choice(toks))
             ck.add(s, rng.random() < 0.5, rng.random() < 0.5, "malformed")
         ck.flush()
 
